@@ -23,13 +23,17 @@
 //           and latency 3 (ring buffer mode of the hazard logic): two known findings (hazard logic accepted but wrong, see
 //           harness/examples/c07_finding_hazard_bypass_mixed_enable_domains.cpp.txt); the driver marks these designs from the design
 //           alone (domains=mixed / ring=true) so that they get signatures of their own
+//   mode 11 power-on initialisation family: clocks with explicit ClockConfig::initializeRegs / initializeMemory in all four combinations
+//           (no reset only with initializeRegs, Clock.cpp:224), synchronous / asynchronous / no reset, memoryResetType NONE or as the reset,
+//           RAMs (and some ROMs) with declared power-on contents (zero / random / partial), 1..4 cycles of reads before the first write;
+//           array model: the declared contents are present iff the memory is a ROM or the write clock has initializeMemory
 //
 // One block per case:
 //   case <id> depth= width= aw= L= type= init= dev= mode= idle= memreset= noreset= initnet= explicit= resetcycles= ports=<n>
 //   net mems= memports= ext=<vendor primitive:count,...>   what the post-processed netlist contains
 //   port <i> R share=<j|-> xor=<bits|-> en= sten=<per stage enable pin|-,...> rst=<per stage reset value,...|->   read port; address pin shared with port j (declared earlier) or own; pin = regs(data ^ xor)
 //   port <i> W cond=<0|1> rmw=<j|-> share=<j|->   write port; data = pin (xor async data of read port j)
-//   mem <w0> <w1> ...                 power-on contents, one 0/1/x string per word
+//   mem <w0> <w1> ...                 DECLARED power-on contents, one 0/1/x string per word (whether they are loaded: initmem= / ROM)
 //   pre <ok|e>   post <ok|e reason>   whether simulation before / postprocess+simulation after worked (e = gatery threw; reason = hint text)
 //   c <t> ; <port inputs in declaration order: R: en addr | W: en wrEn addr data> ; <async read data> ; <pins pre> ; <pins post> [; per read port the stage enables e.g. 1,-,0]
 //   end
@@ -75,6 +79,7 @@ struct CaseCfg {
 	bool noReset = false;  // clock without reset (registers rely on power-on initialisation): cycle 0 is a normal cycle
 	bool initNet = false; // initZero(): initialization network attached
 	bool asyncReset = false;
+	bool initRegs = true, initMem = true;   // ClockConfig::initializeRegs / initializeMemory (both given explicitly)
 	bool rmwEn = false;      // mode 9: read-modify-write under one enable (read registers and write port in the same ENIF scope)
 	size_t enLow = 0;        // mode 9: read enables stay low for this many cycles after the reset cycle(s)
 	size_t extraReset = 0;   // reset held this many cycles longer than Clock::getMinResetCycles() asks for
@@ -112,7 +117,7 @@ static hlim::Node_Pin *pinOf(Bit &v) { return dynamic_cast<hlim::Node_Pin*>(v.no
 static void build(DesignScope &design, CaseCfg &c, Built &b, bool withResetNet = true) {
 	b.clock.emplace(ClockConfig{.absoluteFrequency = 100'000'000, .name = "clk",
 		.resetType = c.noReset ? ClockConfig::ResetType::NONE : c.asyncReset ? ClockConfig::ResetType::ASYNCHRONOUS : ClockConfig::ResetType::SYNCHRONOUS,
-		.memoryResetType = !c.memReset ? ClockConfig::ResetType::NONE : c.asyncReset ? ClockConfig::ResetType::ASYNCHRONOUS : ClockConfig::ResetType::SYNCHRONOUS, .initializeRegs = true, .initializeMemory = true});
+		.memoryResetType = !c.memReset ? ClockConfig::ResetType::NONE : c.asyncReset ? ClockConfig::ResetType::ASYNCHRONOUS : ClockConfig::ResetType::SYNCHRONOUS, .initializeRegs = c.initRegs, .initializeMemory = c.initMem});
 	ClockScope clkScope(*b.clock);
 	Memory<UInt> mem(c.depth, BitWidth(c.width));
 	if (c.explicitLatency) mem.setType(typeOf(c.type), c.L); else { mem.setType(typeOf(c.type)); c.L = mem.readLatencyHint(); }
@@ -281,11 +286,15 @@ static CaseCfg genCase(vh::Rng &rng, int mode) {
 	c.type = (int) rng.below(4);
 	c.L = rng.below(4);
 	if ((mode == 9 || mode == 10)) { c.L = 1 + rng.below(3); c.asyncReset = rng.chance(1, 3); c.enLow = 1 + rng.below(4); }
-	c.memReset = mode == 5 || mode == 8;
+	if (mode == 11) {
+		c.initRegs = rng.chance(1, 2); c.initMem = rng.chance(1, 2);
+		c.asyncReset = rng.chance(1, 3);
+	}
+	c.memReset = mode == 5 || mode == 8 || (mode == 11 && rng.chance(1, 3));
 	if (mode == 8) { c.L = 1 + rng.below(3); c.asyncReset = rng.chance(1, 2); c.extraReset = rng.chance(1, 2) ? 0 : 1 + rng.below(3); c.wrInReset = rng.chance(1, 3); }
 	// with a synchronous reset the first rising clock edge happens under reset (Clock::getMinResetCycles() >= 1): cycle 0 is a
 	// reset cycle, no write is issued in it (so every write port has an enable); without reset the stimulus starts right away
-	c.noReset = !c.memReset && mode != 7 && !c.asyncReset && rng.chance(1, (mode == 9 || mode == 10) ? 4 : 2);
+	c.noReset = !c.memReset && mode != 7 && !c.asyncReset && c.initRegs && rng.chance(1, (mode == 9 || mode == 10 || mode == 11) ? 4 : 2);
 	c.idle = (c.noReset || mode == 7) ? 0 : 1;
 	size_t nR = 1 + rng.below(3), nW = 1 + rng.below(2);
 	// writes during reset: only the write port the reset logic takes over (findSuitableResetWritePort = the first one) drops them;
@@ -307,7 +316,7 @@ static CaseCfg genCase(vh::Rng &rng, int mode) {
 		c.explicitLatency = rng.chance(1, 3); if (c.explicitLatency && c.L == 0) c.L = 1;
 		if (rng.chance(1, 2)) { nR = 1; nW = 1; }          // the shape vendor block rams / lutrams are mapped for
 	}
-	if ((mode == 9 || mode == 10) && rng.chance(1, 6)) nW = 0;      // ROMs too
+	if ((mode == 9 || mode == 10 || mode == 11) && rng.chance(1, 6)) nW = 0;      // ROMs too
 	bool useRdEn = (mode == 9 || mode == 10) && rng.chance(3, 5);   // cases without any read enable keep read-modify-write data (hazard logic + reset values)
 	// declaration order
 	std::vector<bool> kinds; for (size_t i = 0; i < nR; i++) kinds.push_back(false); for (size_t i = 0; i < nW; i++) kinds.push_back(true);
@@ -364,6 +373,12 @@ static CaseCfg genCase(vh::Rng &rng, int mode) {
 	c.init = (nW == 0) ? 2 : (int) rng.below(4);
 	if (mode == 2 && nW > 0 && rng.chance(1, 2)) c.init = 0;   // the Xilinx primitives are only mapped for memories without power-on contents
 	if (c.memReset) { c.init = 1 + (int) rng.below(2); c.initNet = c.init == 1 && rng.chance(1, 2); c.idle = c.depth + 4; }
+	if (mode == 11) {
+		if (nW > 0) c.init = 1 + (int) rng.below(3);
+		c.initNet = false;
+		// reads before the first write: the power-on contents (or their absence) are what the read ports show
+		c.idle = (c.memReset ? c.depth + 3 : (c.noReset ? 0 : 1)) + 1 + rng.below(4);
+	}
 	if (mode == 8) {
 		switch (rng.below(3)) { case 0: c.init = 1; c.initNet = true; break; case 1: c.init = 2; c.initNet = false; break; default: c.init = 4; c.initNet = true; break; }
 		c.resetXor = rng.next() & ((c.width >= 64 ? ~0ull : (1ull << c.width) - 1));
@@ -468,7 +483,7 @@ static void runCase(const std::string &id, vh::Rng &rng, size_t ncycles, int mod
 		}
 	}
 	std::cout << std::dec << "case " << id << " depth=" << c.depth << " width=" << c.width << " aw=" << log2c(c.depth) << " L=" << c.L << " type=" << typeName(c.type)
-		<< " init=" << c.init << " dev=" << c.dev << " mode=" << mode << " idle=" << c.idle << " memreset=" << (c.memReset ? 1 : 0) << " noreset=" << (c.noReset ? 1 : 0) << " initnet=" << (c.initNet ? 1 : 0) << " async=" << (c.asyncReset ? 1 : 0) << " extra=" << c.extraReset << " wrinreset=" << (c.wrInReset ? 1 : 0) << " rcpred=" << c.rcPred << " enlow=" << c.enLow << " rmwen=" << (c.rmwEn ? 1 : 0)
+		<< " init=" << c.init << " dev=" << c.dev << " mode=" << mode << " idle=" << c.idle << " memreset=" << (c.memReset ? 1 : 0) << " noreset=" << (c.noReset ? 1 : 0) << " initnet=" << (c.initNet ? 1 : 0) << " async=" << (c.asyncReset ? 1 : 0) << " extra=" << c.extraReset << " wrinreset=" << (c.wrInReset ? 1 : 0) << " rcpred=" << c.rcPred << " initregs=" << (c.initRegs ? 1 : 0) << " initmem=" << (c.initMem ? 1 : 0) << " enlow=" << c.enLow << " rmwen=" << (c.rmwEn ? 1 : 0)
 		<< " explicit=" << (c.explicitLatency ? 1 : 0) << " resetcycles=" << resetCycles << " ports=" << c.ports.size() << "\n";
 	for (size_t i = 0; i < c.ports.size(); i++) {
 		const PortCfg &p = c.ports[i];
